@@ -55,6 +55,7 @@ impl<'a> StrArg for &'a Str { open spec fn sv(&self) -> Seq<char> { (**self)@ } 
 impl StrArg for Str { open spec fn sv(&self) -> Seq<char> { self@ } }
 #[verifier::external_body]
 pub struct Str { s: String }     // R1: String, &str, &String share one view
+pub open spec fn occurs_at(pat: Seq<char>, s: Seq<char>, k: int) -> bool { 0 <= k && k + pat.len() <= s.len() && s.subrange(k, k + pat.len()) == pat }
 impl Str {
     pub uninterp spec fn view(&self) -> Seq<char>;
     #[verifier::external_body]
@@ -80,6 +81,19 @@ impl Str {
     pub fn starts_with<P: StrPat>(&self, p: P) -> (b: bool) ensures b == is_prefix(p.pat(), self@) { unimplemented!() }
     #[verifier::external_body]
     pub fn ends_with<P: StrPat>(&self, t: P) -> (b: bool) ensures b == is_suffix(t.pat(), self@) { unimplemented!() }
+    // str::find / str::rfind (ASSUMED[str-find]): byte offset of the first / last occurrence of the pattern, None when there is none
+    #[verifier::external_body]
+    pub fn find<P: StrPat>(&self, p: P) -> (r: Option<usize>)
+        ensures
+            r is None <==> !(exists|k: int| occurs_at(p.pat(), self@, k)),
+            r is Some ==> exists|k: int| #[trigger] occurs_at(p.pat(), self@, k) && byte_len(self@.take(k)) == r->Some_0 && forall|j: int| 0 <= j < k ==> !occurs_at(p.pat(), self@, j),
+    { unimplemented!() }
+    #[verifier::external_body]
+    pub fn rfind<P: StrPat>(&self, p: P) -> (r: Option<usize>)
+        ensures
+            r is None <==> !(exists|k: int| occurs_at(p.pat(), self@, k)),
+            r is Some ==> exists|k: int| #[trigger] occurs_at(p.pat(), self@, k) && byte_len(self@.take(k)) == r->Some_0 && forall|j: int| k < j ==> !occurs_at(p.pat(), self@, j),
+    { unimplemented!() }
     #[verifier::external_body]
     pub fn push(&mut self, c: char) ensures final(self)@ == old(self)@.push(c) { unimplemented!() }
     #[verifier::external_body]
